@@ -19,8 +19,8 @@ CFG = {
             "non-trivial = a startup/setappid/suspend/resume/close line; distinct by case op list",
     "trusted_base": ["Spec.ModeTerm (mode terminal: ignores private modes it does not implement), Spec.Tokenize",
                      "writer prologue/epilogue model shared with C01 (tied by the C01 correspondence)",
-                     "direct token mapping of the run-time writes: CSI > flags u agrees with the lexer for EVERY natural number (Props/C04Lex.kittyPush_lexes_all: String.toUTF8, the lexer's CSI branch, "
-                     "both hex encoders, Nat.toDigits); CSI n SP q for the styles 0..6 the code can store (userStyle_lexes), OSC 176 ; id ST for sample ids (appIdRestore_lexes) and real values by the correspondence run"],
+                     "direct token mapping of the three run-time writes — no longer trusted: Props/C04Lex proves agreement with the lexer for EVERY value (kittyPush_lexes_all and userStyle_lexes_all for every natural number, "
+                     "appIdRestore_lexes_all for every id whose UTF-8 bytes contain neither BEL nor ESC): String.toUTF8 / ByteArray.toList, the lexer's CSI and OSC branches, both hex encoders, Nat.toDigits / ofDigitChars"],
     "level_text": "balanced is proved for ALL run-time values and ALL sessions: for every one of the 2^9 assignments of the guard variables, every kitty flags value, user cursor style, "
                   "prior kitty stack depth (Nat), every application id except the one-character id '?' (which OSC 176 reads as the query: unsettable_id_is_query), and every list of operations "
                   "(frames with any renderer output - renderFrame_ok -, cursor requests with any position/style/visibility, SetAppID with any id, Suspend, Resume, in any number and order) "
